@@ -13,6 +13,10 @@ CHECKS = {
    technique="deviation-bounded exhaustive exploration of scripted environment answers (short read/write, Interrupted, error, EOF) x exhaustive small inputs, on the real compio-io helpers, reference-model oracle",
    text="Each helper (read_exact, read_to_end/string, append, read_vectored_exact, *_at, write_all, write_vectored_all, *_at, copy_with_size, Take, split halves, BufReader and BufWriter caller programs) runs on the real code against a scripted source/sink; every placement of <= 2 (quick) / 3 (thorough) deviations from 'transfer everything now' is enumerated, crossed with all small payloads, capacities (incl. 0, 1), destination shapes and positions; in-memory readers/writers/cursors are enumerated over all positions (incl. beyond the end) and shapes. The oracle is a straight-line reference computed from the environment's answer list.",
    note="Trusted: the scripted reader/writer (env.rs) and the reference walk (ref_exact). Bounds: payloads <= 7 bytes, capacities {0,1,2,3,5}, deviations <= 2/3, BufReader/BufWriter caller programs of <= 2-4 operations. Known findings: Uninit view in read_exact, BufReader capacity 0."),
+ "C13": dict(engine="e2pure", design="§2/C13",
+   technique="exhaustive enumeration of frame lists x framer parameters x fragmentations (all compositions / deviation-bounded incl. Pending) through the real Sink and Stream; exhaustive hostile byte strings over an interesting alphabet; exhaustive ancillary message lists x buffer sizes",
+   text="Round trip: every list of <= 2-3 frames (payloads over alphabets that include the delimiter's own bytes) for LengthDelimited (every width 1..8 x endianness), CharDelimited, AnyDelimited is encoded by the real Sink (scripted writer: short writes, Interrupted, Pending) and decoded by the real Stream under every fragmentation (all compositions for streams <= 10 bytes, <= 2/3 deviations otherwise); hostile: all byte strings over {00,01,7f,80,ff,delim} up to length-field width + 2, whole and bytewise, must yield frames/errors/end, no panic, no endless loop; ancillary: all lists of <= 3 messages of 5 payload sizes x 19 buffer sizes round-trip through builder and iterator with exact fit/too-small decisions; serde_json codec round trip.",
+   note="Trusted: scripted reader/writer; BytesCodec as payload carrier. Built with overflow checks on (an arithmetic overflow is a panic and is reported). AncillaryIter is only fed builder output (its constructor is unsafe). Observation outside the property (counted in evidence, not a verdict): SinkExt::send returns before the transport is flushed."),
 }
 
 NOT_YET = {
